@@ -146,3 +146,51 @@ func VerifH_C05_kill_not_interceptable() {
 		verifAssert(outer != nil && outer.Status() == StatusDone && outer.UsedResources().Cpu == a, "completes-with-exact-usage")
 	}
 }
+
+// K2b: __close handlers cannot outrun the limit, also when the body of the
+// context ended with an error.  The real CallContext / cleanupCloseStack /
+// Metacall machinery runs a __close GoFunction that asks for a symbolic amount
+// of CPU.
+func VerifH_C05_close_handler_is_metered() {
+	r, t := vhNewRuntime()
+	L := nondetUint64("L")
+	verifAssume(L >= 100 && L < (uint64(1)<<40))
+	a, b := nondetUint64("a"), nondetUint64("b")
+	verifAssume(a < (uint64(1)<<40) && b < (uint64(1)<<40))
+	handlerFinished := false
+	closeFn := NewGoFunction(func(t *Thread, c *GoCont) (Cont, error) {
+		t.RequireCPU(b)
+		handlerFinished = true
+		return c.Next(), nil
+	}, "close", 2, false)
+	closeFn.SolemnlyDeclareCompliance(ComplyCpuSafe | ComplyMemSafe | ComplyTimeSafe | ComplyIoSafe)
+	meta := NewTable()
+	r.SetEnv(meta, "__close", FunctionValue(closeFn))
+	guard := NewTable()
+	guard.SetMetatable(meta)
+	bodyFails := verifChoose("bodyfails", 2) == 1
+	ctx, _ := t.CallContext(RuntimeContextDef{HardLimits: RuntimeResources{Cpu: L}}, func() error {
+		t.closeStack.push(TableValue(guard)) // a pending to-be-closed value
+		t.RequireCPU(a)
+		if bodyFails {
+			return NewError(StringValue("boom"))
+		}
+		return nil
+	})
+	verifAssert(ctx != nil, "context-returned")
+	if ctx == nil {
+		return
+	}
+	used := ctx.UsedResources().Cpu
+	verifAssert(used < L, "used-never-reaches-the-limit")
+	if a+b >= L {
+		verifReach("over-limit")
+		verifAssert(ctx.Status() == StatusKilled, "over-limit-run-is-killed")
+		verifAssert(!handlerFinished || a+b < L, "handler-does-not-complete-past-the-limit")
+	}
+	if handlerFinished {
+		verifReach("handler-ran")
+		verifAssert(used >= a+b, "handler-work-is-charged")
+	}
+	verifAssert(t.closeStack.size() == 0, "close-stack-unwound")
+}
